@@ -4,6 +4,7 @@ package main
 // account.AccountDB. Nothing in this file judges anything.
 
 import (
+	"errors"
 	"fmt"
 	"math/big"
 	"sort"
@@ -299,17 +300,54 @@ type runner struct {
 	lastReopen common.Hash
 }
 
-func newDB() account.AccountDatabase {
-	mem, _ := db.NewMemDatabase()
-	return account.NewDatabase(mem)
+// isoDB is the real account.NewDatabase over its own in-memory store, with the two code
+// lookups answered straight from that store's node database instead of the adapter's
+// process-lifetime code caches. Every execution (original, twin, replica) gets its own
+// isoDB: code blobs are content addressed, so a blob committed by another execution on a
+// shared database would make "reload the code by hash" succeed where the execution under
+// test never stored it.
+type isoDB struct{ account.AccountDatabase }
+
+func (d isoDB) ContractCode(addrHash, codeHash common.Hash) ([]byte, error) {
+	code, _ := d.TrieDB().Node(codeHash)
+	if len(code) > 0 {
+		return code, nil
+	}
+	return nil, errors.New("not found")
 }
 
-func newRunner(d account.AccountDatabase) *runner {
+func (d isoDB) ContractCodeSize(addrHash, codeHash common.Hash) (int, error) {
+	code, err := d.ContractCode(addrHash, codeHash)
+	return len(code), err
+}
+
+func newDB() account.AccountDatabase {
+	mem, _ := db.NewMemDatabase()
+	return isoDB{account.NewDatabase(mem)}
+}
+
+// newRunner: the argument is ignored (kept for call-site symmetry); every runner owns a
+// fresh database.
+func newRunner(_ account.AccountDatabase) *runner {
+	d := newDB()
 	adb, err := account.NewAccountDB(common.Hash{}, d)
 	if err != nil {
 		panic(err)
 	}
 	return &runner{db: d, adb: adb, snap: map[int]int{}}
+}
+
+// codeBlob: V < 3 are three fixed blobs; any other V is a blob unique to that V (the
+// generator draws V at random per SetCode, so blobs are fresh per operation and history).
+func codeBlob(v int) []byte {
+	if v >= 0 && v < len(codes) {
+		return codes[v]
+	}
+	b := []byte{0x7f, 0, 0, 0, 0, 0, 0, 0, 0, 0x50, 0x00}
+	for i := 0; i < 8; i++ {
+		b[1+i] = byte(uint64(v) >> (8 * uint(i)))
+	}
+	return b
 }
 
 func (rn *runner) run(h []Op) {
@@ -414,7 +452,7 @@ func (rn *runner) exec(o Op) {
 	case "SetState":
 		adb.SetState(a, common.BytesToHash(dataKeys[3+o.S%3]), common.BytesToHash(val(o.V)))
 	case "SetCode":
-		adb.SetCode(a, codes[o.V%len(codes)])
+		adb.SetCode(a, codeBlob(o.V))
 	case "AddBalance":
 		adb.AddBalance(a, amts[o.V%len(amts)])
 	case "SubBalance":
